@@ -59,6 +59,11 @@ const c05Prod = 18 * 2 * 3 * 3 * 4 * 3 * 4
 func c05Run(c *Ctx) {
 	r := c.R
 	k := c.K
+	if c.W.Tier != "race" && c.Sub("api?").Intn(16) == 3 {
+		// a parser made of options registered through the public AddOption API: the same ranking of sources
+		apiMiniSources(c)
+		return
+	}
 	if c.W.Tier != "race" && ((c.W.Tier == "thorough" && k >= c05Prod*30) || (c.W.Tier != "thorough" && k >= c05Prod)) {
 		// the environment variable an option reads is the one its declaration names NOW
 		hc := &DeclCfg{MaxDepth: 2, MaxFan: 2, PCmds: 50, Types: c05Types[:13], OptsMin: 1, OptsMax: 3, SubGroupsMax: 2, PInline: 20, NestMax: 2,
